@@ -413,7 +413,10 @@ func baseSamples(k string) []interface{} {
 			"-P1D", "-P1Y", "-P1M", "-P2Y3M", "-P3M4D", "-P1Y2M3D", "-PT1S", "-PT2H", "-PT1M", "-P1DT1S", "-P1YT1H", "P2Y3M", "P3M4D", "P29D", "PT23H", "PT59M59S", "PT1H1S",
 			// more than a time.Duration holds: no typed accessor can return
 			// what these denote, so they can only be kept as they are
-			"P293Y", "P300Y", "-P300Y", "P1000Y", "P3600M", "P106752D", "PT2562048H", "PT9223372037S", "P200YT876000H", "P99999999999999999999Y"}
+			"P293Y", "P300Y", "-P300Y", "P1000Y", "P3600M", "P106752D", "PT2562048H", "PT9223372037S", "P200YT876000H", "P99999999999999999999Y",
+			// ... among them sums of components that each fit, and durations
+			// of 2^64 ns and more, which wrap around to small values
+			"P292Y6M", "-P292Y6M", "P200Y2400M73000D", "P585Y", "P600Y", "-P600Y", "P700Y3M", "P876Y", "PT18446744074S", "P1170Y", "P1755Y", "P2925Y1D"}
 	case "XMLSchemaBoolean":
 		return []interface{}{true, false}
 	case "XMLSchemaFloat":
